@@ -17,10 +17,11 @@ def decDefs (t : T) : Option (List Def) := do
   let l ← t.asList
   optMap (fun (p : T × Nat) => decDef p.2 p.1) l.zipIdx
 
-def cfgCur : Cfg := {}
+def cfgOf (tb : Tables) : Cfg := { assureOnce := tb.assureOnce }
 
 /-- case: (c16 KIND (l DOC…) baseOk hasSchemaBlock); obs: (obs accepted sdlSame introSame) -/
-def handle (_tb : Tables) (c impl : T) : String :=
+def handle (tb : Tables) (c impl : T) : String :=
+  let cfgCur := cfgOf tb
   match c with
   | .node "c16" [.atom kind, docs, baseOk, blk] =>
     match (do pure ((← optMap decDefs (← docs.asList)), (← baseOk.asBool), (← blk.asBool))) with
@@ -39,6 +40,6 @@ def handle (_tb : Tables) (c impl : T) : String :=
       verdict impl cur [{ flag := "D34", onInCur := cfgCur.assureOnce, obs := alt }] (impl == want)
   | _ => "bad-op"
 
-def flags (_tb : Tables) : List (String × Bool) := [("D34", cfgCur.assureOnce)]
+def flags (tb : Tables) : List (String × Bool) := [("D34", tb.assureOnce)]
 
 end Ggql.Driver.C16
